@@ -117,7 +117,7 @@ pub fn run(ctx: &mut Ctx) {
     let mut idx: u64 = 0;
     let weak = (
         gen::track_opts(),
-        proptest::collection::vec(gen::raw_sample(), 9),
+        proptest::collection::vec(gen::raw_sample(), 12),
         gen::codec_strategy(),
         gen::timescale_strategy(),
         // optional second track (to interleave with)
